@@ -30,7 +30,7 @@ def cases(tier, seed):
     F, per = (3, 4) if tier == "quick" else (5, 24)
     out = []
     kc = 0      # running number of the structures with a prescribed combination of term kinds: every one of the 16 comes up in turn
-    for ci, cellkind in enumerate(("ortho", "tri", "rotated", "rotated_ortho")):
+    for ci, cellkind in enumerate(("ortho", "tri", "rotated", "rotated_ortho", "tiny_tilt")):
         for j in range(per):
             s = int(rng.integers(1 << 30))
             free = (ci * per + j) % 4 == 3 or j == 1
@@ -197,7 +197,7 @@ def requirements(stats, tier):
     F = 3 if tier == "quick" else 5
     if stats.nseen("dims") < F ** 3:
         need.append("only %d of %d factor triples observed" % (stats.nseen("dims"), F ** 3))
-    if stats.nseen("cell_kind") < 4:
+    if stats.nseen("cell_kind") < 5:
         need.append("not all four cell classes observed")
     if stats.nseen("term_kinds_present") < (8 if tier == "quick" else 14):
         need.append("combinations of present/absent term kinds observed: %s" % sorted(stats.sets.get("term_kinds_present", [])))
